@@ -122,9 +122,93 @@ def b_items(domain, p):
 LEAKED = []          # monitors whose writer lock was left held (their __del__ would block forever)
 
 
+class CannotInterleave(Exception):
+    """raised instead of blocking when a simulated second thread asks for a lock that the
+    first thread holds: the interleaving that was being tried does not exist"""
+
+
+class GateLock:
+    """Stands in for PcapWriterMonitor._writer_lock in the `concurrent` cases (everything runs
+    on one thread; a second writer thread is simulated by a re-entrant call)."""
+    def __init__(self, state):
+        self.state, self.held, self.order = state, False, []
+    def acquire(self, blocking=True, timeout=-1):
+        if self.held:
+            if self.state["injecting"]:
+                raise CannotInterleave()
+            return False
+        self.held = True
+        if self.state["current"] is not None:
+            self.order.append(self.state["current"])
+        return True
+    def release(self):
+        self.held = False
+
+
+def write_concurrent(case, fn):
+    """Two writer threads on one monitor, at lock granularity, without a scheduler.
+    `concurrent` = [[i, j], ...]: at the moment thread A, processing packet i, reads the local
+    clock, thread B runs its WHOLE process_packet(packet j) before A goes on.  If A holds the
+    writer lock at that moment, B cannot run there (it would block): recorded as "blocked" and
+    packet j is handed over after packet i like any other.  Returns what happened: the order
+    in which the lock was taken, the clock readings in the order they were made."""
+    domain = case["domain"]
+    state = {"current": None, "injecting": False}
+    inject = {int(i): int(j) for i, j in case["concurrent"]}
+    values = [c / 1000000 for c in case["clock"]]
+    micros = list(case["clock"])
+    reads, done, log = [], set(), []
+    w = Connector(None)
+    w.domain = domain
+    w.format = getattr(HUB, domain).format
+    mon = PcapWriterMonitor(fn)
+    if not mon.attach(w):
+        raise RuntimeError("attach failed")
+    lock = GateLock(state)
+    mon._writer_lock = lock
+    objs = [mk_packet(domain, bytes.fromhex(pk["frame"]), pk["meta"]) for pk in case["pkts"]]
+    def clock():
+        v = values.pop(0)
+        reads.append([state["current"], micros.pop(0)])
+        i = state["current"]
+        if i in inject and not state["injecting"]:
+            j = inject.pop(i)
+            state["injecting"], state["current"] = True, j
+            try:
+                mon.process_packet(objs[j])       # the second thread (e.g. another connector the monitor is attached to)
+                done.add(j)
+                log.append([i, j, "ran"])
+            except CannotInterleave:
+                log.append([i, j, "blocked"])
+            finally:
+                state["injecting"], state["current"] = False, i
+        return v
+    real_time = wpcap.time
+    wpcap.time = clock
+    try:
+        mon.start()
+        for i, p in enumerate(objs):
+            if i in done:
+                continue
+            state["current"] = i
+            w.monitor_packet_rx(p)
+        state["current"] = None
+    finally:
+        wpcap.time = real_time
+        if not lock.held:
+            mon.stop()
+            mon.close()
+        else:
+            LEAKED.append((mon, w))
+    case["_concurrent"] = {"lock_order": lock.order, "clock_reads": reads, "interleaved": log}
+    return mon.packets_written
+
+
 def write_case(case, fn):
     """`split` = k: the first k packets are written by one monitor, which is closed; a second
     monitor then appends the rest to the same file (PcapWriterMonitor append mode)."""
+    if case.get("concurrent"):
+        return write_concurrent(case, fn)
     domain = case["domain"]
     clock = [c / 1000000 for c in case["clock"]]
     real_time = wpcap.time
@@ -336,6 +420,8 @@ def run_case(case, tmp, k):
     res = {"written": recs, "A": A, "B": B, "n_written": n, "in": attrs}
     if case.get("_ops_done"):
         res["ops_done"] = case["_ops_done"]
+    if case.get("_concurrent"):
+        res["concurrent"] = case["_concurrent"]
     if texc:
         res["replay_thread_exc"] = texc
     if khz is not None:
